@@ -199,10 +199,12 @@ impl AstLowering {
                         //
                         // This ensures newtype invariants are enforced at construction.
                         // ----------------------------------------------------------------
-                        if self.newtype_checked_ctor.contains_key(name)
+                        // `from m import Email as E`: `E(x)` constructs an `Email` and must go through its hook
+                        let declared_name = self.import_aliases.get(name).cloned().unwrap_or_else(|| name.clone());
+                        if self.newtype_checked_ctor.contains_key(&declared_name)
                             && args.len() == 1
                             && matches!(args[0], ast::CallArg::Positional(_))
-                            && self.current_impl_type.as_deref() != Some(name.as_str())
+                            && self.current_impl_type.as_deref() != Some(declared_name.as_str())
                         {
                             let ast::CallArg::Positional(value) = &args[0] else {
                                 unreachable!("checked by matches! above")
@@ -210,7 +212,7 @@ impl AstLowering {
                             let lowered_value = self.lower_expr(&value.node)?;
                             let ctor = self
                                 .newtype_checked_ctor
-                                .get(name)
+                                .get(&declared_name)
                                 .cloned()
                                 .unwrap_or_else(|| "from_underlying".to_string());
 
